@@ -48,7 +48,7 @@ def run_family(ctx, name, behaviours, tags, server_flags=None):
     seen = set()
     for v in sorted(viols, key=lambda v: (v["tid"], v["line"])):
         ctx.count("raw_violations_" + v["tag"])
-        if v["tag"] not in tags:
+        if v["tag"] not in tags and not os.environ.get("VERIF_ALLTAGS"):
             continue
         if (v["tid"], v["tag"]) in seen:
             continue
@@ -168,13 +168,186 @@ def check_C02(ctx):
             behs = gen_sim(ctx, "snap-t%d-i%d-%d" % (th, iv, i), n, alphabet="OpsMix", clients="Seq3", threshold=th, interval=iv,
                            late=late, feat='{"idle", "build", "evict", "lateattach"}', weight=40, maxedits=3)
             viols += run_family(ctx, "snap-t%d-i%d-%d" % (th, iv, i), behs, C02_TAGS)
+    for th, iv, alpha, kinds, init in [(1, 1, "OpsNest", ["o"], TYPES["obj"]["init"]), (2, 2, "OpsArr", ["a"], TYPES["arr"]["init"]),
+                                      (2, 1, "OpsTxt", ["t"], TYPES["txt"]["init"]), (1, 2, "OpsTreeText", ["tr"], []), (2, 1, "OpsTreeElem", ["tr"], [])]:
+        name = "snap-%s" % alpha
+        behs = gen_sim(ctx, name, n, alphabet=alpha, clients="Seq3", threshold=th, interval=iv, late='{"c3"}',
+                       feat='{"idle", "build", "evict", "lateattach"}', weight=8, maxedits=3, kinds=kinds, init=init)
+        viols += run_family(ctx, name, behs, C02_TAGS)
     fresh, known = split_known(ctx, viols)
     if ctx.counters.get("snapshot_responses", 0) == 0:
         raise Infra("vacuous: no snapshot response was ever served")
     return "model_checking", fresh, known, mc_cov(ctx), ["memdb backend only"]
 
 
-CHECKS = {"C01": check_C01, "C02": check_C02, "C03": check_C03}
+def sim_families(ctx, fams, tags, n):
+    """fams: list of dicts of gen_sim keyword arguments (with 'name')."""
+    viols = []
+    for f in fams:
+        f = dict(f)
+        name = f.pop("name")
+        flags = f.pop("server_flags", None)
+        behs = gen_sim(ctx, name, f.pop("n", n), **f)
+        viols += run_family(ctx, name, behs, tags, server_flags=flags)
+    return viols
+
+
+ARR = dict(kinds=["a"], init=TYPES["arr"]["init"])
+OBJ = dict(kinds=["o"], init=TYPES["obj"]["init"])
+TXT = dict(kinds=["t"], init=TYPES["txt"]["init"])
+TREE = dict(kinds=["tr"], init=[])
+E2 = '{"c1", "c2"}'
+
+C04_TAGS = {"LogDense", "RowsOfRequester", "PushedExactlyOnce", "NoDuplicateRow", "PerSessionOrdered", "NoGapBelowCheckpoint",
+            "CheckpointBound", "PulledMatchesLog", "PulledInOrder", "NoEcho", "DeliveredOnce", "ResponseCheckpointBound",
+            "CheckpointMonotone", "HeadMatchesLog", "CheckpointAdopted", "RefDense", "LogReplayable"}
+
+
+def check_C04(ctx):
+    build_harness(ctx)
+    quick = ctx.tier == "quick"
+    n = 150 if quick else 2000
+    fams = [
+        dict(name="seq-3c", alphabet="OpsMix", clients="Seq3", weight=40),
+        dict(name="seq-detach", alphabet="OpsArrNoMove", clients="Seq3", feat='{"idle", "detach", "reattach", "pushonly"}', maxsess=2, weight=6, **ARR),
+        dict(name="seq-late4", alphabet="OpsCnt", clients="Seq4", editors='{"c1", "c2", "c3", "c4"}', late='{"c4"}',
+             feat='{"idle", "lateattach", "pushonly", "detach"}', weight=2, kinds=["n"], init=[]),
+        dict(name="seq-snap", alphabet="OpsTxt", clients="Seq3", threshold=2, interval=2, feat='{"idle", "pushonly"}', weight=6, **TXT),
+    ]
+    viols = sim_families(ctx, fams, C04_TAGS, n)
+    ok, out, rec = model_check(ctx, "YorkieGen", "mc_proto.cfg")
+    if not ok:
+        ctx.notes.append("design-level model mc_proto.cfg reports an invariant violation (candidate; see replay on code)")
+    fresh, known = split_known(ctx, viols)
+    return "model_checking", fresh, known, mc_cov(ctx), ["memdb backend only", "sequential schedules here; concurrent schedules are in the gates/stress part"]
+
+
+C06_TAGS = {"OwnEntry", "UniqueTicket", "AuthorMonotone", "Causal", "MinVVSound"}
+
+
+def check_C06(ctx):
+    build_harness(ctx)
+    quick = ctx.tier == "quick"
+    n = 150 if quick else 2000
+    fams = [
+        dict(name="clk-3c", alphabet="OpsMix", clients="Seq3", weight=40),
+        dict(name="clk-gcoff", alphabet="OpsCnt", clients="Seq3", feat='{"idle", "gcoff", "lateattach", "detach", "reattach"}', late='{"c3"}',
+             maxsess=2, weight=2, kinds=["n"], init=[]),
+        dict(name="clk-snap", alphabet="OpsGC", clients="Seq3", threshold=2, interval=2, feat='{"idle", "lateattach", "detach"}', late='{"c3"}', weight=10),
+        dict(name="clk-snap1", alphabet="OpsTxt", clients="Seq3", threshold=1, interval=1, feat='{"idle", "lateattach", "detach", "reattach"}', late='{"c2"}',
+             maxsess=2, weight=6, **TXT),
+    ]
+    viols = sim_families(ctx, fams, C06_TAGS, n)
+    ok, out, rec = model_check(ctx, "YorkieGen", "mc_proto.cfg")
+    fresh, known = split_known(ctx, viols)
+    return "model_checking", fresh, known, mc_cov(ctx), ["memdb backend only"]
+
+
+C08_TAGS = {"UpdateAtomic", "CloneEqRoot", "EditNeverFails"}
+
+
+def check_C08(ctx):
+    build_harness(ctx)
+    quick = ctx.tier == "quick"
+    n = 120 if quick else 1500
+    fams = [
+        dict(name="upd-mix", alphabet="OpsMix", clients="Seq2", editors=E2, feat='{"idle", "fail"}', weight=40, maxedits=6),
+        dict(name="upd-arr", alphabet="OpsArr", clients="Seq2", editors=E2, feat='{"idle", "fail"}', weight=10, maxedits=6, **ARR),
+        dict(name="upd-txt", alphabet="OpsTxt", clients="Seq2", editors=E2, feat='{"idle", "fail"}', weight=8, maxedits=6, **TXT),
+        dict(name="upd-tree", alphabet="OpsTreeText", clients="Seq2", editors=E2, feat='{"idle", "fail"}', weight=10, maxedits=6, **TREE),
+        dict(name="upd-nest-snap", alphabet="OpsNest", clients="Seq2", editors=E2, feat='{"idle", "fail", "undo"}', weight=6, maxedits=6,
+             threshold=2, interval=2, maxundo=3, **OBJ),
+    ]
+    viols = sim_families(ctx, fams, C08_TAGS, n)
+    fresh, known = split_known(ctx, viols)
+    return "model_checking", fresh, known, mc_cov(ctx), ["memdb backend only"]
+
+
+C12_TAGS = {"PresenceConverged", "NoPresenceRows", "NoPresenceInResponses", "NoPresenceInSnapshots", "Converged", "SyncNeverFails",
+            "DeactivateNeverFails", "PresenceOnlyAttached"}
+
+
+def check_C12(ctx):
+    build_harness(ctx)
+    quick = ctx.tier == "quick"
+    n = 150 if quick else 2000
+    fams = [
+        dict(name="pres", alphabet="OpsPresMix", clients="Seq3", feat='{"idle", "detach", "reattach", "deactivate", "lateattach"}', late='{"c3"}',
+             maxsess=2, weight=4, kinds=["n"], init=[]),
+        dict(name="pres-snap", alphabet="OpsPresMix", clients="Seq3", feat='{"idle", "detach", "reattach", "lateattach"}', late='{"c3"}',
+             maxsess=2, weight=4, threshold=2, interval=2, kinds=["n"], init=[]),
+        dict(name="nopres", alphabet="OpsPresMix", clients="Seq3", feat='{"idle", "detach", "reattach", "nopres", "lateattach", "deactivate"}', late='{"c3"}',
+             maxsess=2, weight=4, threshold=3, interval=2, kinds=["n"], init=[]),
+    ]
+    viols = sim_families(ctx, fams, C12_TAGS, n)
+    fresh, known = split_known(ctx, viols)
+    return "model_checking", fresh, known, mc_cov(ctx), ["memdb backend only"]
+
+
+C10_TAGS = {"CompactionKeepsContent", "StaleAddsNoRows", "StaleRefused", "EpochStrictlyIncreases", "CompactRefusedWhileAttached",
+            "CompactNeverFailsOnContent", "CompactedLogSize", "FailedCompactKeepsEpoch", "Converged", "RefEquiv", "SyncNeverFails",
+            "LogReplayable", "DetachTakesEffect"}
+
+
+def check_C10(ctx):
+    build_harness(ctx)
+    quick = ctx.tier == "quick"
+    n = 150 if quick else 2000
+    feat = '{"idle", "detach", "reattach", "compact", "force", "lateattach"}'
+    fams = [
+        dict(name="cmp-mix", alphabet="OpsMix", clients="Seq3", feat=feat, late='{"c3"}', maxsess=3, maxcompact=2, weight=40, maxedits=3),
+        dict(name="cmp-gc", alphabet="OpsGC", clients="Seq3", feat=feat, late='{"c3"}', maxsess=3, maxcompact=2, weight=10, maxedits=3),
+        dict(name="cmp-nest", alphabet="OpsNest", clients="Seq2", editors=E2, feat=feat, maxsess=3, maxcompact=2, weight=6, maxedits=3, **OBJ),
+        dict(name="cmp-snap", alphabet="OpsTxt", clients="Seq3", feat=feat, late='{"c3"}', maxsess=3, maxcompact=2, weight=6, maxedits=3,
+             threshold=2, interval=2, **TXT),
+    ]
+    viols = sim_families(ctx, fams, C10_TAGS, n)
+    if ctx.counters.get("compactions_ok", 0) == 0:
+        raise Infra("vacuous: no compaction succeeded")
+    fresh, known = split_known(ctx, viols)
+    return "model_checking", fresh, known, mc_cov(ctx), ["memdb backend only"]
+
+
+C11_TAGS = {"WriteOnlyWhenActive", "WriteOnlyWhenAttached", "RemovedStoresNothing", "RemovedIsSticky", "DetachTakesEffect",
+            "RemoveTakesEffect", "DeactivateDetachesAll", "DeactivateNeverFails", "DetachedHoldsNoGC", "SyncNeverFails"}
+
+
+def check_C11(ctx):
+    build_harness(ctx)
+    quick = ctx.tier == "quick"
+    n = 150 if quick else 2000
+    feat = '{"idle", "detach", "reattach", "remove", "deactivate", "lateattach", "pushonly"}'
+    fams = [
+        dict(name="life-cnt", alphabet="OpsCnt", clients="Seq3", feat=feat, late='{"c3"}', maxsess=3, weight=2, kinds=["n"], init=[]),
+        dict(name="life-gc", alphabet="OpsGC", clients="Seq3", feat=feat, late='{"c3"}', maxsess=3, weight=10),
+        dict(name="life-nopres", alphabet="OpsCnt", clients="Seq3", feat='{"idle", "detach", "reattach", "remove", "deactivate", "lateattach", "nopres"}',
+             late='{"c3"}', maxsess=3, weight=2, kinds=["n"], init=[]),
+    ]
+    viols = sim_families(ctx, fams, C11_TAGS, n)
+    fresh, known = split_known(ctx, viols)
+    return "model_checking", fresh, known, mc_cov(ctx), ["memdb backend only"]
+
+
+C15_TAGS = {"Converged", "RefEquiv", "SyncNeverFails", "UndoRedoNeverFails", "CloneEqRoot", "LogReplayable", "BuildEquiv"}
+
+
+def check_C15(ctx):
+    build_harness(ctx)
+    quick = ctx.tier == "quick"
+    n = 150 if quick else 2000
+    fams = []
+    for nm, alpha, extra in [("arr", "OpsArrNoMove", ARR), ("obj", "OpsObj", OBJ), ("txt", "OpsTxt", TXT), ("cnt", "OpsCnt", dict(kinds=["n"], init=[])),
+                             ("tree", "OpsTreeText", TREE), ("treeel", "OpsTreeElem", TREE), ("arrmv", "OpsArr", ARR)]:
+        fams.append(dict(name="undo-" + nm, alphabet=alpha, clients="Seq2", editors=E2, feat='{"idle", "undo"}', maxundo=3, maxedits=3, weight=4, **extra))
+    viols = sim_families(ctx, fams, C15_TAGS, n)
+    if ctx.counters.get("undos", 0) == 0:
+        raise Infra("vacuous: no undo executed")
+    fresh, known = split_known(ctx, viols)
+    return "model_checking", fresh, known, mc_cov(ctx), ["memdb backend only"]
+
+
+CHECKS = {"C01": check_C01, "C02": check_C02, "C03": check_C03, "C04": check_C04, "C06": check_C06, "C08": check_C08,
+          "C10": check_C10, "C11": check_C11, "C12": check_C12, "C15": check_C15}
 
 
 def replay(ctx, path):
